@@ -471,7 +471,7 @@ def describe(obj, key, diffs):
         return "any", "comparison-is-%s" % {True: "true", False: "false", None: "null"}[b], kind
     if "ruleid" in obj.ids:
         # the same datapoint reported under another rule identifier
-        if ruleid_pairs(diffs, obj.ids):
+        if ruleid_pairs(diffs, obj.ids) or renumbered(obj, key, diffs):
             named = any(r["name"] is not None for r in obj.rs["rules"])
             return ("named-rules" if named else "unnamed-rules"), "ruleset-" + rule_order_class(obj.rs), "wrong-value(ruleid)"
     if call["fn"] == "check_datapoint":
@@ -514,16 +514,32 @@ def describe(obj, key, diffs):
 
 
 def rule_order_class(rs):
-    """is the textual order of the rules a dependency order (every item computed by an earlier rule)?"""
+    """does a rule use an item that another rule of the ruleset computes / validates as its left side?"""
     lefts = {}
     for i, r in enumerate(rs["rules"]):
-        if r["op"] == "=":
-            lefts.setdefault(r["left"], i)
+        lefts.setdefault(r["left"], i)
     for i, r in enumerate(rs["rules"]):
         for _, n in r["right"]:
-            if n in lefts and lefts[n] > i:
-                return "textual-order-is-not-dependency-order"
-    return "textual-order-is-dependency-order"
+            if n in lefts and lefts[n] != i:
+                return "with-a-rule-depending-on-another"
+    return "without-dependent-rules"
+
+
+_LAST = {}
+
+
+def renumbered(obj, key, diffs):
+    """are the engine's datapoints of the slice the expected ones under a renumbering of the rule identifiers?"""
+    got, exp = _LAST.get("got"), _LAST.get("exp")
+    if got is None or len(obj.names) > 5:
+        return False
+    for perm in itertools.permutations(obj.names):
+        if list(perm) == list(obj.names):
+            continue
+        ren = dict(zip(obj.names, perm))
+        if same_rows(got, [dict(r, ruleid=ren.get(r["ruleid"], r["ruleid"])) for r in exp], obj.ids):
+            return True
+    return False
 
 
 def coverage_class(obj, key):
@@ -609,6 +625,7 @@ def run_and_judge(script, datasets, rec, extra, seed=0, defs_text="", stmt_texts
                 n_failed += 1
                 if n_failed <= 40:
                     try:
+                        _LAST.update(got=g, exp=exp)
                         shape, fcls, kind = describe(obj, key, diffs)
                     except (KeyError, ValueError, IndexError):
                         shape, fcls, kind = "any", "unclassified", diffs[0][0]
